@@ -2221,6 +2221,16 @@ def gen_bind_tu(rng, nfuncs):
             if not d:
                 calls.append(f'  {{ intptr_t got = -1; npass = nfail = 0; expect(fn_{k}, will_capture_parameter({a}, got)); fn_{k}({callargs}); clear_mocks(); printf("%d %d %s\\n", npass, nfail, got == {vals[j]} ? "ok" : "wrong"); }}')
                 expected.append((f"fn_{k} arity {n}: will_capture_parameter({a}) at position {j}", "0 0 ok", snippet))
+        # several clauses naming the same parameter in one expect(): each of them applies to that argument (two when(), the second one
+        # the violated one; a when() and then a capture)
+        for j, (a, d) in enumerate(args):
+            if d: continue
+            calls.append(f'  npass = nfail = 0; expect(fn_{k}, when({a}, is_greater_than({vals[j] - 1})), when({a}, is_less_than({vals[j]}))); fn_{k}({callargs}); clear_mocks(); printf("%d %d -\\n", npass, nfail);')
+            expected.append((f"fn_{k} arity {n}: two when() clauses on {a} (position {j}), the second one is violated", "1 1 -", snippet + f"\n/* expect(fn_{k}, when({a}, is_greater_than({vals[j] - 1})), when({a}, is_less_than({vals[j]}))); fn_{k}({callargs}); */"))
+            calls.append(f'  npass = nfail = 0; expect(fn_{k}, when({a}, is_greater_than({vals[j] - 1})), when({a}, is_less_than({vals[j] + 1}))); fn_{k}({callargs}); clear_mocks(); printf("%d %d -\\n", npass, nfail);')
+            expected.append((f"fn_{k} arity {n}: two when() clauses on {a} (position {j}), both hold", "2 0 -", snippet))
+            calls.append(f'  {{ intptr_t got = -1; npass = nfail = 0; expect(fn_{k}, when({a}, is_equal_to({vals[j]})), will_capture_parameter({a}, got)); fn_{k}({callargs}); clear_mocks(); printf("%d %d %s\\n", npass, nfail, got == {vals[j]} ? "ok" : "wrong"); }}')
+            expected.append((f"fn_{k} arity {n}: when({a}, ...) and then will_capture_parameter({a}) at position {j}", "1 0 ok", snippet + f"\n/* expect(fn_{k}, when({a}, is_equal_to({vals[j]})), will_capture_parameter({a}, got)); fn_{k}({callargs}); */"))
         # an output-parameter clause for each (non-double) position: the bytes arrive, whatever the reporter's counters say about
         # earlier tests; and a when() written after it in the same expect() is applied all the same
         for j, (a, d) in enumerate(args):
